@@ -860,4 +860,8 @@ theorem cd_upper (d : Rat) (hd : d ≠ 0) : ∀ n : Nat,
       simp only [prodUp]
       grind
 
+theorem coef_false_eq (d old a b base : Rat) : coef false d old a b base = quot (a - b) (2 * d * old) := by
+  unfold coef
+  cases quot (a - b) (2 * d * old) <;> simp
+
 end Mxl.C18
